@@ -287,16 +287,16 @@ def instrument(conn: base.Conn, world: base.World):
 
         setattr(h, name, wrapper)
 
-    orig_ready = p._handle_response_ready  # instrumentation only (callback boundary for the transcript)
-
-    def ready(task):
+    # The delayed-response callback is found through PUBLIC behaviour: whatever the protocol registers as a
+    # done-callback on the task a response carries (`response.task.add_done_callback(cb)`) is that callback.
+    def run_ready(real_cb, task):
         try:
             cb = {"cb": "ready", "ok": hx(task.result())}
         except BaseException as ex:  # noqa: BLE001  (recording only; the real callback runs below regardless)
             cb = {"cb": "ready", "err": type(ex).__name__}
         cbs.append(cb)
         try:
-            return orig_ready(task)
+            return real_cb(task)
         except BaseException as ex:  # noqa: BLE001
             cb["escaped"] = type(ex).__name__
             raise
@@ -305,7 +305,28 @@ def instrument(conn: base.Conn, world: base.World):
             cb["writes"] = sum(1 for o in conn.t.ops if o[0] == "write")
             cb["closing"] = conn.t.closed
 
-    p._handle_response_ready = ready
+    class TaskProxy:
+        """response.task as the protocol sees it: the real task, except that done-callbacks are recorded"""
+
+        def __init__(self, task):
+            self._task = task
+
+        def add_done_callback(self, fn, *a, **k):
+            return self._task.add_done_callback(lambda t, fn=fn: run_ready(fn, t), *a, **k)
+
+        def __getattr__(self, name):
+            return getattr(self._task, name)
+
+    inner_dispatch = h.dispatch
+
+    def dispatch_with_task(request, body=None):
+        resp = inner_dispatch(request, body)
+        t = getattr(resp, "task", None)
+        if t is not None and not isinstance(t, TaskProxy):
+            resp.task = TaskProxy(t)
+        return resp
+
+    h.dispatch = dispatch_with_task
     return calls, disp, cbs
 
 
@@ -1396,8 +1417,14 @@ def run_pending(spec: Dict[str, Any]) -> Dict[str, Any]:
                 call("connection_lost", conn.p.connection_lost, None)
             elif e == "server-stop":
                 srv = world.driver.http_server
-                srv._connection_cleanup = world.loop.call_later(300, lambda: None)  # what async_start arms
-                srv.server = type("ListeningSocket", (), {"close": lambda self: None})()
+                # what async_start arms (a listening socket, a periodic cleanup timer), without naming private
+                # attributes: every slot the constructor left empty gets an object that can be closed / cancelled
+                armed = type("Armed", (), {"close": lambda self: None, "cancel": lambda self: None,
+                                           "wait_closed": lambda self: asyncio.sleep(0)})
+                srv.loop = world.loop
+                for attr, val in list(vars(srv).items()):
+                    if val is None:
+                        setattr(srv, attr, armed())
                 call("HAPServer.async_stop", srv.async_stop)
                 call("connection_lost", conn.p.connection_lost, None)
                 call("connection_lost(bystander)", bystander.p.connection_lost, None)
